@@ -421,6 +421,8 @@ def write_evidence(pid, tier, seed, level, coverage, wall_s, violations=0, assum
     }
     os.makedirs(os.path.join(VERIF, 'evidence'), exist_ok=True)
     path = os.path.join(VERIF, 'evidence', pid + '.json')
+    if os.environ.get('VERIF_NOEVIDENCE'):
+        path = os.path.join(scratch_root(), pid + '.json')
     tmp = path + '.tmp'
     with open(tmp, 'w') as f:
         json.dump(ev, f, indent=1, default=str)
